@@ -103,8 +103,8 @@ func ruleSetMethods(c *Ctx) {
 			fill := false
 			var direct []SymEffect
 			for _, ef := range tapeStores {
-				if isNopAff(ef.Val) {
-					fill = true // NOP fill loop store (payload checked by C14.writers)
+				if !ef.Val.IsConst() && isNopAff(ef.Val) {
+					fill = true // NOP fill loop store with a symbolic payload (checked by C14.writers)
 					continue
 				}
 				direct = append(direct, ef)
